@@ -4,7 +4,7 @@ replaces library code, DESIGN.md section 2.3).  Each model works on the interpre
 import re
 import z3
 from .engine import (Agg, Cell, SlotCell, Ref, Str, MapM, SeqM, LockM, GuardM, LazyM, OnceM, IterM, Closure, Coroutine, RefCellM, BorrowM,
-                     TlsKey, FnItem, Instant, Duration, Opaque, EnvFn, Unsupported, Panic, Deadlock, unit, some, none, ok, err, tup,
+                     TlsKey, FnItem, Instant, Duration, Opaque, EnvFn, ArgVal, Unsupported, Panic, Deadlock, unit, some, none, ok, err, tup,
                      load, store, deref, deref_all, clone_val, is_conc, is_z3, is_real, to_real, simp, b_not, b_and, b_or, v_eq, str_eq, term_eq,
                      outer_ty, INT_RANGE)
 
@@ -160,7 +160,11 @@ def _builtin(s, ctx, func, g, tc, A, caller, ln, last):
     # ------------------------------------------------------------ strings / fmt
     if tc and tc[0] in ('String', 'str') and tc[2] in ('to_string', 'clone', 'deref', 'deref_mut', 'borrow', 'as_ref', 'to_owned', 'from', 'into', 'as_str'):
         v = deref_all(A[0]);
-        if isinstance(v, Str): return v if tc[2] != 'deref' else Ref(Cell(v, 'str')) if False else v
+        if isinstance(v, Str): return v
+        if isinstance(v, ArgVal):
+            # the text of a string-typed argument used as it is (no Debug quoting): a Display-like rendering
+            if tc[2] in ('to_string', 'to_owned', 'clone', 'from', 'into'): return Str(('fmt', 'display', ('bytes', '\\xc0\\x00'), v, v.ty))
+            return A[0]
     if g in ('std::string::String::as_str', 'std::hint::must_use', 'std::string::String::as_mut_str', 'core::hint::must_use') or E('String::as_str') or E('hint::must_use'):
         return deref_all(A[0]) if last != 'must_use' else A[0]
     if tc and tc[1] == 'From' and tc[0] == 'String' and tc[2] == 'from': return deref_all(A[0])
@@ -683,7 +687,15 @@ def _builtin(s, ctx, func, g, tc, A, caller, ln, last):
                 r = yield from s.call_callable(ctx, A[1], [Ref(SlotCell(e, 0)), Ref(SlotCell(e, 1))])
                 if ctx.branch(r): keep.append(e)
             m.items[:] = keep; s.drop_val(ctx, gd); return unit()
-        if op in ('entry', 'remove_if', 'alter'): raise Unsupported('DashMap::' + op)
+        if op == 'remove_if':
+            k = _key(A[1]); i = _find(ctx, m, k)
+            if i == len(m.items): s.drop_val(ctx, gd); return none()
+            r = yield from s.call_callable(ctx, A[2], [Ref(SlotCell(m.items[i], 0)), Ref(SlotCell(m.items[i], 1))])
+            take = ctx.branch(r)
+            s.drop_val(ctx, gd)
+            if not take: return none()
+            e = m.items.pop(i); return some(tup(e[0], e[1]))
+        if op in ('entry', 'alter'): raise Unsupported('DashMap::' + op)
         if op == 'insert':
             k, v = A[1], A[2]
             i = _find(ctx, m, deref_all(k))
